@@ -273,3 +273,90 @@ func vhC16ToText(s string, halign TextAlign, withIndent bool) {
 	vAssertI("C16.totext.inside_width_unless_overflows", inside)
 	vAssertI("C16.totext.alignment", aligned || (halign != Left && vhC16DoubleSpace(s)))
 }
+
+// C16-H4: NewTextLine (single-line layout, text.go:315-383) with the shell font: texts of one or
+// two script runs (Latin + Greek: two spans on the line), optional line breaks (LF, CR LF),
+// Left/Center/Right, symbolic advance per script.  Spans of a line follow each other without gap
+// or overlap; Left: the line starts at 0, Center: it is centred on 0, Right: it ends at 0; each line
+// of the input is a line of the text, stacked by the line height; every character appears once.
+func vhC16Script2(r rune) text.Script {
+	if 0x370 <= r && r <= 0x3FF {
+		return text.Greek
+	}
+	return vhC16Script(r)
+}
+
+var vhC16LineTexts = []string{"ab", "abαβ", "αab", "ab\ncα", "a\r\nb"}
+
+func VH_C16_textline_Q() {
+	if !vInterp() {
+		return
+	}
+	vStub("!(github.com/tdewolff/canvas/text.Shaper).Shape", vhC16Shape)
+	vStub("!github.com/tdewolff/canvas/text.EmbeddingLevels", vhC16Levels)
+	vStub("!github.com/tdewolff/canvas/text.LookupScript", vhC16Script2)
+	s := vhC16LineTexts[vChoose(0, len(vhC16LineTexts)-1)]
+	halign := []TextAlign{Left, Center, Right}[vChoose(0, 2)]
+	la, ga := int32(vNondetIntQ(11)), int32(vNondetIntQ(11))
+	vAssumeI(100 <= la && la <= 900 && 100 <= ga && ga <= 900)
+	vhC16Adv = map[rune]int32{'\n': 0, '\r': 0}
+	for _, r := range s {
+		if _, has := vhC16Adv[r]; !has {
+			if vhC16Script2(r) == text.Greek {
+				vhC16Adv[r] = ga
+			} else {
+				vhC16Adv[r] = la
+			}
+		}
+	}
+	face := vhC16Face()
+	t := NewTextLine(face, s, halign)
+	// expected lines: the input split at line breaks (empty lines have no spans)
+	nlines := 1
+	for i := 0; i < len(s); i++ {
+		if s[i] == '\n' {
+			nlines++
+		}
+	}
+	vAssertI("C16.textline.one_line_per_input_line", len(t.lines) == nlines)
+	contiguous, aligned, stacked, chars := true, true, true, 0
+	for j, ln := range t.lines {
+		if j > 0 {
+			stacked = stacked && ln.y > t.lines[j-1].y
+		}
+		if len(ln.spans) == 0 {
+			continue
+		}
+		// visual order = logical order here (all left to right): sort is not needed
+		total := 0.0
+		for k, sp := range ln.spans {
+			if k > 0 {
+				prev := ln.spans[k-1]
+				contiguous = contiguous && vhNear(sp.X, prev.X+prev.Width)
+			}
+			total += sp.Width
+			for range sp.Text {
+				chars++
+			}
+		}
+		first, last := ln.spans[0], ln.spans[len(ln.spans)-1]
+		switch halign {
+		case Left:
+			aligned = aligned && vhNear(first.X, 0)
+		case Center:
+			aligned = aligned && vhNear(first.X, -total/2)
+		case Right:
+			aligned = aligned && vhNear(last.X+last.Width, 0)
+		}
+	}
+	nchars := 0
+	for _, r := range s {
+		if r != '\n' && r != '\r' {
+			nchars++
+		}
+	}
+	vAssertI("C16.textline.spans_contiguous", contiguous)
+	vAssertI("C16.textline.alignment", aligned)
+	vAssertI("C16.textline.lines_stacked", stacked)
+	vAssertI("C16.textline.every_character_once", chars == nchars)
+}
